@@ -36,6 +36,7 @@ MIN_REACH = {
     "new_sessions": {"quick": 80, "thorough": 1500},
     "disk_loads_compared": {"quick": 400, "thorough": 7000},
     "overwrites_applied": {"quick": 40, "thorough": 700},
+    "unsynced_steps_before_first_save": {"quick": 25, "thorough": 400},
 }
 TIME_BUDGET = {"quick": 400, "thorough": 3400}
 
@@ -74,7 +75,20 @@ def cases(ctx):
                 expanded = True
                 st["value"] = rng.choice(C_VALS)
             steps.append(st)
-        yield {"steps": steps, "engine": engine, "mem_only": mem_only, "kind": rng.choice(["float", "multi:s,a3", "int"]),
+        # un-synced harvests BEFORE the data file exists are safe by the documented semantics (there is nothing on disk
+        # to load over them): the first synced step must then save everything harvested so far
+        prefix = rng.choice([0, 0, 0, 1, 2]) if not mem_only else 0
+        for k in range(min(prefix, len(steps))):
+            steps[k]["op"] = rng.choice(["combos", "cases", "add_ds"])
+            steps[k]["new_session"] = False
+            if steps[k]["op"] == "cases":
+                pts = [(a, b) for a in A_VALS for b in B_VALS]
+                steps[k]["pts"] = rng.sample(pts, rng.randint(1, 4))
+        if prefix and len(steps) > prefix:
+            steps[prefix]["new_session"] = False
+            if steps[prefix]["op"] in ("save_merge", "drop_sel", "expand"):
+                steps[prefix]["op"] = "combos"
+        yield {"steps": steps, "engine": engine, "mem_only": mem_only, "unsynced_prefix": prefix, "kind": rng.choice(["float", "multi:s,a3", "int"]),
                "name": rng.choice(["hv", "hv_data", "full.v1"]) + (rng.choice(["", {"h5netcdf": ".h5", "joblib": ".dmp"}[engine]])),
                "extra_const": rng.random() < 0.3}
 
@@ -192,7 +206,7 @@ def run_case(ctx, case):
             d = refmodel.ds_equiv(want, mem, check_attrs=False)
             if d:
                 bad.append("memory differs from everything harvested so far: " + d)
-        if synced and data_name is not None and want is not None:
+        if synced and data_name is not None and want is not None and state["ever_saved"]:
             try:
                 with quiet():
                     disk = xyzpy.load_ds(data_name, engine=engine)
@@ -215,11 +229,20 @@ def run_case(ctx, case):
                     info={"points_in_model": len(model), "axes": {d: sorted(axes[d]) for d in dims}})
 
     force_new = False
-    for st in case["steps"]:
+    state = {"ever_saved": False}
+    for istep, st in enumerate(case["steps"]):
         if nviol:
             break
         op, policy, ver = st["op"], st["policy"], st["version"]
-        sync = not case["mem_only"]
+        if case.get("unsynced_prefix") and not state["ever_saved"]:
+            # until the first successful save the un-synced data lives in this session's memory only:
+            # opening another session (or writing the file behind its back) would discard it by design
+            st = dict(st, new_session=False)
+            if op == "save_merge":
+                op = "add_ds"
+        sync = not case["mem_only"] and istep >= case.get("unsynced_prefix", 0)
+        if not sync and not case["mem_only"]:
+            ctx.count("unsynced_steps_before_first_save")
         if (st["new_session"] or force_new) and not case["mem_only"]:
             h = xyzpy.Harvester(new_runner(ver), data_name=data_name, engine=engine)
             ctx.count("new_sessions")
@@ -320,6 +343,8 @@ def run_case(ctx, case):
             ctx.violation(dict(case, at=list(hist)), "%s raised %r" % (hist[-1], err), dict(sig, oracle="no-exception", op=op, **exc_sig(err)))
             nviol += 1
             break
+        if sync and not expect_conflict and err is None and data_name is not None and os.listdir(tmp):
+            state["ever_saved"] = True
         judge(op, synced=sync)
     try:
         if h is not None and h._full_ds is not None:
